@@ -894,7 +894,7 @@ fn main() -> std::process::ExitCode {
         "C12",
         "IL functions from gen_fn (1-7 blocks, loops, calls, intrinsics, loads/stores, sometimes unreachable blocks) enriched with self-referential updates, 0/1/2/3-scalar reads, the same scalar read twice, intrinsics with 0-3 declared written / read scalars and with undeclared effects; 16 initial states, executions of up to 300 steps by the reference interpreter (intrinsics and returning calls in havoc mode); after every executed location the last writer of every scalar written so far must be in RD of that location, before every executed instruction / taken guarded edge the last writers of the scalars it reads must be in its UD, every assignment or load in RD[L] must reach L on a path (own BFS over the location graph) without another assignment or load of its scalar, and DU must be the inverse of UD; non-trivial = some execution in which one scalar is written by two different instructions; distinct = (#blocks, #edges capped, #scalars with >= 2 static definitions capped, set of execution classes, largest RD set capped)",
         Box::new(|_t: Tier| from_tape(1800, decode)),
-        |t| t.pick(20_000, 1_000_000),
+        |t| t.pick(50_000, 2_000_000),
         check,
     );
     spec.render = render;
